@@ -138,6 +138,7 @@ type lockGen struct {
 	clean      bool // only requests the modules accept (the block message must then succeed)
 	exodus     bool // this block: every validator, the bedrock one included, withdraws everything (the whole set leaves at once)
 	afterBurst int  // burst mode: 2 = the next block adds a later maturity instant, 1 = the one after jumps the clock over both
+	lastAbsent map[int]bool // who was absent in the previous block
 	boost      bool // this block: nothing but creations and generous locks, so that several validators are active afterwards
 }
 
@@ -171,11 +172,13 @@ func (g *lockGen) plan() *BlockPlan {
 	// absent voters (never the bedrock validator 1)
 	if set := c.Sets[h-1]; set != nil {
 		for _, v := range set.Validators {
-			if id := c.KR.ValID(v.Address); id > 1 && r.Intn(10) < 4 {
+			// absences come in streaks (a node that is down stays down for a while): 7 in 10 after an absence, 3 in 10 otherwise
+			if id := c.KR.ValID(v.Address); id > 1 && ((g.lastAbsent[id-1] && r.Intn(10) < 7) || (!g.lastAbsent[id-1] && r.Intn(10) < 3)) {
 				plan.Absent[id-1] = true
 			}
 		}
 	}
+	g.lastAbsent = plan.Absent
 	now := s.Tick + plan.DT
 	// evidence
 	for k := []int{0, 0, 0, 0, 0, 0, 0, 1, 1, 2, 3}[r.Intn(11)]; k > 0; k-- { // often none, sometimes several pieces in one block (fresh and expired ones mixed)
@@ -391,6 +394,27 @@ func (g *lockGen) plan() *BlockPlan {
 	if g.mode == "burst" && rare(4) {
 		nUnl = 12 + r.Intn(14)
 		plan.DT = int64(r.Intn(2))
+	}
+	if rare(2) { // a jailed (downgraded) validator takes out a PART of what it holds and stays at or above every threshold: it stays jailed,
+		// powerless and unranked, whatever happens to the token's weight afterwards
+		for vi, v := range st.Val {
+			if !v.Exists || v.Status != "Downgrade" || vi == 0 || nUnl > 20 {
+				continue
+			}
+			for ti := range st.Tokens {
+				if spare := v.Locking[ti] - st.Thr[ti]; st.Tokens[ti].Exists && spare >= 1 && v.Locking[ti] >= 2 && rare(2) {
+					amt := 1 + int64(r.Intn(int(spare)))
+					if amt >= v.Locking[ti] {
+						amt = v.Locking[ti] - 1
+					}
+					id := g.id()
+					lk.Unlocks = append(lk.Unlocks, &goattypes.UnlockRequest{Id: uint64(id), Validator: c.KR.Vals[vi].EthAddr(), Recipient: rndAddr(r),
+						Token: project.TokenAddrs[ti], Amount: big.NewInt(amt)})
+					unlocks = append(unlocks, Ev{"id": id, "v": vi + 1, "t": ti + 1, "amt": amt})
+					break
+				}
+			}
+		}
 	}
 	if rare(3) { // boundary-seeking unlock: take a validator's holding of a token with a threshold to just below / exactly at it
 		var cands [][3]int64
